@@ -12,7 +12,7 @@ Definition wreg (reg v : N) : prog unit := spi_write [N.lor reg 0x80; v] false.
 Definition rreg (reg : N) : prog N := r <- spi_read [N.land reg 0x7f] 1 ;; Ret (nthN r 0).
 
 (* ---- arithmetic *)
-Definition pll_step_127 (f : N) : N := ((f * 524288) / 32000000) mod 4294967296.
+Definition pll_step_127 (f : N) : N := ((f * 524288 + 16000000) / 32000000) mod 4294967296.
 Definition pll_to_freq_127 (s : N) : N := ((s * 32000000) / 524288) mod 4294967296.
 Definition linearize_rssi (r : N) : Z := ((Z.of_N r * 16 + 7) / 15)%Z.
 (* sync_word_to_legacy *)
